@@ -1,4 +1,3 @@
 from driver import Unit, Inst
-import C01
-def units(tier): return [Unit('dbg', shim='dbg.cpp', ctors=False, redirect=[p for p in C01.plan('quick') if p[0]=='TCP'][0][3], differential=False)]
-def instances(tier): return [Inst('dbg', h, params=(20,), unwind=22, timeout=60, leak=lk) for h in ('h_dbg_g','h_dbg_h','h_dbg_i') for lk in (False,)]
+def units(tier): return [Unit('c16', shim='c16.cpp', ctors=False)]
+def instances(tier): return [Inst('c16', 'h_c16_v6_iter', params=(1,), unwind=18, timeout=100)]
